@@ -7,6 +7,7 @@ package main
 
 import (
 	"context"
+	"crypto/sha256"
 	"encoding/base64"
 	"encoding/json"
 	"io"
@@ -20,6 +21,7 @@ import (
 	"time"
 
 	jose "github.com/go-jose/go-jose/v4"
+	"golang.org/x/text/language"
 
 	"verifharness/drv"
 	"verifharness/emit"
@@ -245,6 +247,38 @@ type cfgT struct {
 	Post, PKJWT, Refresh, CC, TE, Dev bool
 	NoJP                                bool // the provider object handed to NewLegacyServer hides the optional method JWTProfileVerifier
 	Sub                                 bool // the provider's JWTProfileVerifier is overridden: custom op.SubjectCheck that lets iss != sub pass
+	// the REST of op.Config, next to the flags above (index of envT; not in the model: no guard reads it, and the theorems
+	// about disabled grants hold for every configuration)
+	Env int
+}
+
+var envT = []string{"default", "offline_access_claims_nos256", "openid_only_backchannel", "grant_names_as_scopes"}
+
+// restOfConfig fills in what the switches of cfgT leave open
+func restOfConfig(cfg *op.Config, env int) {
+	dev := op.DeviceAuthorizationConfig{Lifetime: 5 * time.Minute, PollInterval: 5 * time.Second, UserFormPath: "/device", UserCode: op.UserCodeBase20}
+	cfg.DefaultLogoutRedirectURI = "/logged-out"
+	cfg.CodeMethodS256, cfg.RequestObjectSupported = true, true
+	switch env {
+	case 1:
+		cfg.SupportedScopes = []string{"openid", "profile", "email", "phone", "address", "offline_access"}
+		cfg.SupportedClaims = []string{"sub", "aud", "exp", "iat", "iss", "auth_time", "nonce", "name", "email"}
+		cfg.SupportedUILocales = []language.Tag{language.English, language.German}
+		cfg.CodeMethodS256, cfg.RequestObjectSupported = false, false
+		dev.Lifetime, dev.PollInterval, dev.UserFormPath, dev.UserCode = 10*time.Minute, time.Second, "/activate", op.UserCodeDigits
+	case 2:
+		cfg.SupportedScopes = []string{"openid"}
+		cfg.SupportedClaims = []string{"sub"}
+		cfg.BackChannelLogoutSupported, cfg.BackChannelLogoutSessionSupported = true, true
+		cfg.DefaultLogoutRedirectURI = "https://app.example.com/bye"
+		dev.Lifetime, dev.UserFormPath, dev.UserFormURL = time.Minute, "", "https://login.example.com/device"
+	case 3:
+		cfg.SupportedScopes = []string{"openid", "offline_access", "refresh_token", "client_credentials", "device_code",
+			string(oidc.GrantTypeTokenExchange), string(oidc.GrantTypeDeviceCode), string(oidc.GrantTypeBearer), "private_key_jwt", "client_secret_post"}
+		cfg.SupportedClaims = []string{"refresh_token", "offline_access", "client_secret_post", "private_key_jwt"}
+		cfg.RequestObjectSupported = false
+	}
+	cfg.DeviceAuthorization = dev
 }
 
 type regT struct {
@@ -415,7 +449,7 @@ func (c caseT) tags() []string {
 		"meth=" + strings.ToLower(methN[c.Reg.Meth][1:]), "app=" + strings.ToLower(appN[c.Reg.App][1:]),
 		"pres=" + c.Pres.tag(), "known=" + onoff(c.Reg.Known), "key=" + onoff(c.Reg.HasKey),
 		"post=" + onoff(c.Cfg.Post), "pkjwt=" + onoff(c.Cfg.PKJWT), "refresh=" + onoff(c.Cfg.Refresh),
-		"cc=" + onoff(c.Cfg.CC), "te=" + onoff(c.Cfg.TE), "dev=" + onoff(c.Cfg.Dev), "jwtprofile_method=" + onoff(!c.Cfg.NoJP), "subject_check=" + map[bool]string{false: "default", true: "custom"}[c.Cfg.Sub]}
+		"cc=" + onoff(c.Cfg.CC), "te=" + onoff(c.Cfg.TE), "dev=" + onoff(c.Cfg.Dev), "jwtprofile_method=" + onoff(!c.Cfg.NoJP), "subject_check=" + map[bool]string{false: "default", true: "custom"}[c.Cfg.Sub], "config_rest=" + envT[c.Cfg.Env]}
 	if c.Reg.Meth == 4 {
 		t = append(t, "meth_value="+methOther[c.Reg.MV%len(methOther)].Name)
 	}
@@ -503,7 +537,23 @@ func worldOf(c cfgT) *world {
 	}
 	st := refstore.New(opfix.DefaultSigning())
 	st.Users["alice"] = &refstore.User{Subject: "alice", Name: "Alice A", Email: "alice@example.com"}
-	f, err := opfix.New(st, opfix.Options{NoPost: !c.Post, NoPKJWT: !c.PKJWT, NoRefresh: !c.Refresh, NoCC: !c.CC, NoTE: !c.TE, NoDevice: !c.Dev})
+	var f *opfix.Fixture
+	var err error
+	if c.Env == 0 {
+		f, err = opfix.New(st, opfix.Options{NoPost: !c.Post, NoPKJWT: !c.PKJWT, NoRefresh: !c.Refresh, NoCC: !c.CC, NoTE: !c.TE, NoDevice: !c.Dev})
+	} else {
+		// the same provider as opfix.New builds, with another rest of the configuration
+		cfg := &op.Config{CryptoKey: sha256.Sum256([]byte("opfix-crypto-key")), AuthMethodPost: c.Post, AuthMethodPrivateKeyJWT: c.PKJWT, GrantTypeRefreshToken: c.Refresh}
+		restOfConfig(cfg, c.Env)
+		lg := slog.New(slog.NewTextHandler(io.Discard, nil))
+		var p *op.Provider
+		p, err = op.NewProvider(cfg, st.AsStorage(c.CC, c.TE, c.Dev), op.StaticIssuer(opfix.Issuer), op.WithLogger(lg))
+		if err == nil {
+			f = &opfix.Fixture{Store: st, Provider: p}
+			f.Handlers[opfix.Provider] = p
+			f.Handlers[opfix.Legacy] = op.RegisterLegacyServer(op.NewLegacyServer(p, *op.DefaultEndpoints), op.AuthorizeCallbackHandler(p), op.WithFallbackLogger(lg))
+		}
+	}
 	if err != nil {
 		fmt.Fprintln(os.Stderr, "fixture:", err)
 		os.Exit(2)
@@ -1171,7 +1221,7 @@ func drawPl(r drv.Rand) plT {
 func bits(n, k int) bool { return n>>k&1 == 1 }
 
 func cfgOf(n int) cfgT {
-	return cfgT{Post: bits(n, 0), PKJWT: bits(n, 1), Refresh: bits(n, 2), CC: bits(n, 3), TE: bits(n, 4), Dev: bits(n, 5), NoJP: bits(n, 6), Sub: bits(n, 7)}
+	return cfgT{Post: bits(n, 0), PKJWT: bits(n, 1), Refresh: bits(n, 2), CC: bits(n, 3), TE: bits(n, 4), Dev: bits(n, 5), NoJP: bits(n, 6), Sub: bits(n, 7), Env: n >> 8 % len(envT)}
 }
 
 // grantOf(endpoint, grant): the grant whose registration matters for the case (-1: none)
@@ -1208,7 +1258,7 @@ func randomCase(r drv.Rand) caseT {
 	}
 	c.SecKind = drawSecKind(r)
 	// mostly-on configuration, each switch off with probability 1/4
-	c.Cfg = cfgT{!r.Chance(1, 4), !r.Chance(1, 4), !r.Chance(1, 4), !r.Chance(1, 4), !r.Chance(1, 4), !r.Chance(1, 4), r.Chance(1, 4), r.Chance(1, 4)}
+	c.Cfg = cfgT{!r.Chance(1, 4), !r.Chance(1, 4), !r.Chance(1, 4), !r.Chance(1, 4), !r.Chance(1, 4), !r.Chance(1, 4), r.Chance(1, 4), r.Chance(1, 4), r.IntN(2) * r.IntN(len(envT))}
 	c.Reg.Known = !r.Chance(1, 10)
 	c.Reg.Meth, c.Reg.MV = r.IntN(5), r.IntN(64)
 	c.Reg.App = r.IntN(3)
@@ -1256,7 +1306,7 @@ func full(grants ...int) [7]bool {
 
 // directed cases: the inputs of the defects this check found (kept so they are reported again if they return)
 func directed() []caseT {
-	allOn := cfgT{true, true, true, true, true, true, false, false}
+	allOn := cfgT{true, true, true, true, true, true, false, false, 0}
 	web := func(m int, gr [7]bool) regT { return regT{Known: true, Meth: m, App: 0, Grants: gr, HasKey: m == 2} }
 	var cs []caseT
 	// F03: malformed escape in the Basic header, the five legacy grant handlers of the Provider router
@@ -1294,7 +1344,7 @@ func directed() []caseT {
 // (2) every router x endpoint/grant x cross-client presentation x auth method of the second client, for a basic and a
 // private_key_jwt client X; (3) every router x endpoint/grant x placement of grant_type / client parameters / artefact.
 func systematic() []caseT {
-	allOn := cfgT{true, true, true, true, true, true, false, false}
+	allOn := cfgT{true, true, true, true, true, true, false, false, 0}
 	var cs []caseT
 	rot := 0 // rotates through the concrete near-miss forms
 	type eg struct{ e, g int }
@@ -1489,6 +1539,25 @@ func systematic() []caseT {
 					}
 				}
 			}
+			// (11) the rest of the provider configuration (SupportedScopes with / without offline_access and with the names of grants
+			// and auth methods, SupportedClaims, CodeMethodS256, RequestObjectSupported, back-channel logout, device authorization
+			// settings) x every flag / capability off, and everything on: a disabled grant or method stays disabled whatever the
+			// surrounding configuration says
+			for env := 1; env < len(envT); env++ {
+				offs := []cfgT{allOn}
+				for k := 0; k < 6; k++ {
+					o := allOn
+					*[]*bool{&o.Post, &o.PKJWT, &o.Refresh, &o.CC, &o.TE, &o.Dev}[k] = false
+					offs = append(offs, o)
+				}
+				for _, cf := range offs {
+					cf.Env = env
+					for _, meth := range []int{0, 1, 2, 3} {
+						rg := regT{Known: true, Meth: meth, App: 0, Grants: full(), HasKey: meth == 2}
+						cs = append(cs, caseT{Router: router, Endpoint: x.e, Grant: x.g, Cfg: cf, Reg: rg, Pres: fitting[meth], Tag: "block=config_rest"})
+					}
+				}
+			}
 			// (6) near misses of the grant_type value itself (other case, surrounding white space, keyword), with the artefact
 			// and the registration of the real grant and a fitting credential
 			if x.e == eToken {
@@ -1553,7 +1622,7 @@ func enumerate(r drv.Rand, emitCase func(caseT)) {
 									if g == gUnknown && r.Chance(2, 3) {
 										c.GBase, c.GForm = r.IntN(6), 1+r.IntN(len(grantForms))
 									}
-									c.Cfg = cfgT{bits(flags, 0), bits(flags, 1), bits(flags, 2), r.Bool(), r.Bool(), r.Bool(), r.Chance(1, 3), r.Chance(1, 3)}
+									c.Cfg = cfgT{bits(flags, 0), bits(flags, 1), bits(flags, 2), r.Bool(), r.Bool(), r.Bool(), r.Chance(1, 3), r.Chance(1, 3), r.IntN(2) * r.IntN(len(envT))}
 									capOn := bits(v, 0)
 									switch grantOf(e, g) {
 									case gCC:
@@ -1628,7 +1697,7 @@ func main() {
 	}
 	err := w.Close(emit.Meta{Property: "C05", Tier: cfg.Tier, Seed: cfg.Seed, Exhaustive: exhaustive,
 		Extra: map[string]any{"primer_requests_not_answered_active": primerFailed, "self_primer_requests": selfPrimers, "self_primer_requests_answered_2xx": selfPrimerOK},
-		Rule:  "one HTTP request per case against the Provider or the LegacyServer router over refstore, with an otherwise valid grant (code+PKCE, refresh token, device code, subject token, key-signed assertion) prepared in an emptied store for the case's client X - or, for the four cross-client presentations, for a second confidential client Y whose id the request mixes with X's valid credential; varied: registration (auth method, grant set, app type, key, known), presented credential (20 forms), grant_type (9), provider flags and storage capabilities (6 switches), endpoint (4); observed also: the client the answer acted for (owner of the created token / device code, of the revoked or active token). Both tiers: directed defect inputs + systematic blocks (router x endpoint/grant x auth method x application type with fitting credential and with client_id only; router x endpoint/grant x cross-client presentation). Round 5: secrets are right / wrong / empty / white space only / a near miss of the right one, ids exact or a near miss (surrounding white space, other case, case-fold twins, trailing slash, one byte more or fewer, keyword literals), each kind in many concrete strings and wire encodings (raw, %XX, + ; tags basic_secret, form_secret, id_form, basic_enc, form_enc), stored secrets plain / 1-4 KiB long / with white space or reserved characters (stored_secret), near misses of the grant_type value (grant_form), and cases that follow X's own fully credentialed request on the same endpoint (prev=self); blocks near_miss, near_miss_grant_type, method_x_refusal. Round 6: a fifth auth-method class - AuthMethod() returns one of 13 values outside the library's constants (unset, client_secret_jwt, tls_client_auth, unknown, case variants; tag meth_value) for a client with a stored secret (block method_value) - and the LegacyServer built over a provider object that hides the optional method JWTProfileVerifier (7th switch, tag jwtprofile_method; block bare_provider), client_id next to an assertion, junk assertions. Round 7: secrets / ids that percent-decode one more time to the registered value (forms once_*), both routers built over a provider wrapper whose JWT profile verifier has a permissive SubjectCheck (8th switch, tag subject_check) and assertions of X whose subject is a second registered client (block subject_check). quick: + random draws (fitting credential half of the time); thorough: + the cross product, enumerating of the grant set only the membership of the grant at stake, of the six switches the three flags and the capability at stake, and drawing the application type. Non-trivial = model path class != 0 (the request got past the first guard of its handler); distinct = distinct (input, path class).",
+		Rule:  "one HTTP request per case against the Provider or the LegacyServer router over refstore, with an otherwise valid grant (code+PKCE, refresh token, device code, subject token, key-signed assertion) prepared in an emptied store for the case's client X - or, for the four cross-client presentations, for a second confidential client Y whose id the request mixes with X's valid credential; varied: registration (auth method, grant set, app type, key, known), presented credential (20 forms), grant_type (9), provider flags and storage capabilities (6 switches), endpoint (4); observed also: the client the answer acted for (owner of the created token / device code, of the revoked or active token). Both tiers: directed defect inputs + systematic blocks (router x endpoint/grant x auth method x application type with fitting credential and with client_id only; router x endpoint/grant x cross-client presentation). Round 5: secrets are right / wrong / empty / white space only / a near miss of the right one, ids exact or a near miss (surrounding white space, other case, case-fold twins, trailing slash, one byte more or fewer, keyword literals), each kind in many concrete strings and wire encodings (raw, %XX, + ; tags basic_secret, form_secret, id_form, basic_enc, form_enc), stored secrets plain / 1-4 KiB long / with white space or reserved characters (stored_secret), near misses of the grant_type value (grant_form), and cases that follow X's own fully credentialed request on the same endpoint (prev=self); blocks near_miss, near_miss_grant_type, method_x_refusal. Round 6: a fifth auth-method class - AuthMethod() returns one of 13 values outside the library's constants (unset, client_secret_jwt, tls_client_auth, unknown, case variants; tag meth_value) for a client with a stored secret (block method_value) - and the LegacyServer built over a provider object that hides the optional method JWTProfileVerifier (7th switch, tag jwtprofile_method; block bare_provider), client_id next to an assertion, junk assertions. Round 7: secrets / ids that percent-decode one more time to the registered value (forms once_*), both routers built over a provider wrapper whose JWT profile verifier has a permissive SubjectCheck (8th switch, tag subject_check) and assertions of X whose subject is a second registered client (block subject_check). Round 8: Basic next to client_id in body / query (block basic_and_form_id). Round 9: the rest of op.Config (SupportedScopes with / without offline_access, claims, S256, request objects, back-channel logout, device settings; tag config_rest) crossed with every switch off (block config_rest). quick: + random draws (fitting credential half of the time); thorough: + the cross product, enumerating of the grant set only the membership of the grant at stake, of the six switches the three flags and the capability at stake, and drawing the application type. Non-trivial = model path class != 0 (the request got past the first guard of its handler); distinct = distinct (input, path class).",
 	})
 	if err != nil {
 		fmt.Fprintln(os.Stderr, err)
